@@ -511,7 +511,8 @@ def forward_signatures(func, calls, args, kwargs, sig):
 
 
 def autoforwards_partial(par, args, kwargs):
-    sig = autoforwards(par.func, par.args, {})
+    # args: what a partial object wrapped around this one binds in turn
+    sig = autoforwards(par.func, tuple(par.args) + tuple(args), {})
     try:
         return _signatures._mask(
             sig, len(par.args),
